@@ -421,6 +421,10 @@ func (tr *FnTrans) applyContractEnv(fc *FuncContract, name string, sig *types.Si
 	for _, c := range fc.Ensures {
 		tr.fact(post.evalBool(c.E))
 	}
+	for _, c := range fc.Assumes {
+		tr.fact(post.evalBool(c.E))
+		vc.assume("assumed (unproved) postcondition of " + name + " [" + c.Label + "]: " + c.Text)
+	}
 	return res
 }
 
@@ -612,6 +616,13 @@ func (tr *FnTrans) chanContract(op, class string) *FuncContract {
 
 // chanClass names the struct field a channel value was loaded from.
 func chanClass(v ssa.Value) string {
+	if call, ok := v.(*ssa.Call); ok {
+		// channel returned by a method: class "ret:<method>"
+		if callee := call.Call.StaticCallee(); callee != nil {
+			return "ret:" + strings.NewReplacer("(*", "", "(", "", ")", "").Replace(relName(callee))
+		}
+		return ""
+	}
 	un, ok := v.(*ssa.UnOp)
 	if !ok || un.Op != token.MUL {
 		return ""
